@@ -252,6 +252,14 @@ func nonPreemptiveAfter(prefix []int) func([]int) int {
 	}
 }
 
+// explorePrefix recovers the decision prefix behind a chooser produced by nonPreemptiveAfter (used when
+// the schedule runs in another process): the chooser is probed with a universal enabled set.
+func explorePrefix(ch func([]int) int) []int {
+	return exploreCurrentPrefix
+}
+
+var exploreCurrentPrefix []int
+
 // Explore enumerates schedules systematically (depth-first over alternative choices) with a bound on
 // the number of preemptions (switching away from a thread that is still enabled). runOnce executes
 // the case under the given chooser and returns the choices made and the enabled sets.
@@ -270,6 +278,7 @@ func Explore(bound, maxRuns int, runOnce func(chooser func([]int) int) (choices 
 			continue
 		}
 		seen[key] = true
+		exploreCurrentPrefix = it.prefix
 		choices, enabled := runOnce(nonPreemptiveAfter(it.prefix))
 		runs++
 		// count preemptions along the executed schedule and branch after the prefix
